@@ -366,6 +366,23 @@ fn main() {
         opt.insert(args[i].trim_start_matches("--").to_string(), args[i + 1].clone());
         i += 2;
     }
+    if let Some(path) = opt.get("implonly") {
+        // no model: print each case with the real implementation's outputs (used by the python oracles)
+        let text = std::fs::read_to_string(path).expect("case file");
+        let mut out = String::new();
+        for line in text.lines() {
+            let line = line.trim();
+            if line.is_empty() || line.starts_with('#') {
+                continue;
+            }
+            if let Some(c) = parse_case(line) {
+                out.push_str(&full_request(&extra::prepare(c)));
+                out.push('\n');
+            }
+        }
+        print!("{out}");
+        return;
+    }
     let drv_path = opt.get("drv").expect("--drv").clone();
     let mut drv = Drv::start(&drv_path);
 
